@@ -19,7 +19,7 @@ Proof. reflexivity. Qed.
 Definition lim64 (L : limits) : Prop := max_arr L < W64 /\ max_map L < W64.
 
 Lemma lim64_serde : lim64 serde_limits.
-Proof. unfold lim64, serde_limits; cbn [max_arr max_map]; lia. Qed.
+Proof. split; vm_compute; reflexivity. Qed.
 
 (* ------------------------------------------------------------------ *)
 (* induction principle for the nested inductive                         *)
@@ -1746,7 +1746,8 @@ Theorem decode_rejects_truncated L (HL : lim64 L) x p s :
 Proof.
   unfold within. intros Hw Hps Hs. apply andb_true_iff in Hw. destruct Hw as [Hwf Hh].
   apply Nat.leb_le in Hh. unfold decode.
-  rewrite (dec_truncated L HL x _ _ p s Hwf Hh ltac:(lia) Hps Hs). reflexivity.
+  rewrite (dec_truncated L HL x (S (length p)) (max_depth L) p s Hwf Hh (Nat.lt_succ_diag_r _) Hps Hs).
+  reflexivity.
 Qed.
 
 (* ------------------------------------------------------------------ *)
@@ -1818,3 +1819,156 @@ Corollary reencode_stable L bs x y :
 Proof.
   intros H1 H2. rewrite (decode_reencode L bs x H1) in H2. injection H2 as <-. apply encode_canon.
 Qed.
+
+(* ------------------------------------------------------------------ *)
+(* summary: each class of malformed input is refused at top level with a
+   reason of the "malformed" class                                      *)
+
+Theorem decode_rejects_malformed L (HL : lim64 L) :
+  (forall mt rest, 2 <= mt <= 5 ->
+     exists e, decode L ((mt * 32 + 31) :: rest) = Err e /\ malformed_reason e = true) /\
+  (forall b rest, b < 256 -> 28 <= b mod 32 <= 30 ->
+     exists e, decode L (b :: rest) = Err e /\ malformed_reason e = true) /\
+  (forall x b rest, within L x = true ->
+     exists e, decode L (encode x ++ b :: rest) = Err e /\ malformed_reason e = true) /\
+  (forall k v1 v2, within L (Map [(k, v1)]) = true -> wf L v2 = true ->
+     (height v2 < max_depth L)%nat -> 2 <= max_map L ->
+     exists e, decode L (head 5 2 ++ encode k ++ encode v1 ++ encode k ++ encode v2) = Err e /\
+               malformed_reason e = true) /\
+  (1 <= max_arr L ->
+     exists e, decode L (repeat 129 (S (max_depth L)) ++ [0]) = Err e /\ malformed_reason e = true) /\
+  (forall t rest, t = 2 \/ t = 3 ->
+     exists e, decode L (head 6 t ++ rest) = Err e /\ malformed_reason e = true) /\
+  (forall b, utf8_valid b = false -> all_bytes b = true -> len b < W64 ->
+     exists e, decode L (head 3 (len b) ++ b) = Err e /\ malformed_reason e = true) /\
+  (forall x p s, within L x = true -> encode x = p ++ s -> s <> [] ->
+     exists e, decode L p = Err e /\ malformed_reason e = true).
+Proof.
+  repeat split.
+  - intros mt rest H. eexists; split; [apply decode_rejects_indefinite, H|reflexivity].
+  - intros b rest H1 H2. eexists; split; [apply decode_rejects_reserved; assumption|reflexivity].
+  - intros x b rest H. eexists; split; [apply decode_rejects_trailing; assumption|reflexivity].
+  - intros k v1 v2 H1 H2 H3 H4. eexists; split; [apply decode_rejects_dup_key; assumption|reflexivity].
+  - intros H. eexists; split; [apply decode_rejects_deep, H|reflexivity].
+  - intros t rest H. eexists; split; [apply decode_rejects_bignum_tag, H|reflexivity].
+  - intros b H1 H2 H3. eexists; split; [apply decode_rejects_bad_utf8; assumption|reflexivity].
+  - intros x p s H1 H2 H3. eexists; split; [apply (decode_rejects_truncated L HL x p s); assumption|reflexivity].
+Qed.
+
+(* ------------------------------------------------------------------ *)
+(* every accepted stream consists of bytes (the decoder checks it)      *)
+
+Definition bytes_checked {A} (d : bytes -> res (A * bytes)) : Prop :=
+  forall bs x r, d bs = Ok (x, r) -> exists c, bs = c ++ r /\ all_bytes c = true.
+
+Lemma all_bytes_app a b : all_bytes (a ++ b) = all_bytes a && all_bytes b.
+Proof. unfold all_bytes. apply forallb_app. Qed.
+
+Lemma read_head_bytes bs mt ai n r :
+  read_head bs = Ok (mt, ai, n, r) -> exists c, bs = c ++ r /\ all_bytes c = true.
+Proof.
+  destruct bs as [|b r0]; [discriminate|]. unfold read_head. cbv zeta.
+  destruct (256 <=? b) eqn:Eb; [discriminate|].
+  assert (Hb : all_bytes [b] = true).
+  { unfold all_bytes; cbn [forallb]. rewrite andb_true_r. apply N.ltb_lt. lia. }
+  destruct (b mod 32 <? 24).
+  { intros H. injection H as <- <- <- <-. exists [b]. split; [reflexivity|exact Hb]. }
+  destruct (b mod 32 <? 28).
+  { destruct (take _ r0) as [[x r']|] eqn:Et; [|discriminate].
+    destruct (all_bytes x) eqn:Ex; [|discriminate].
+    intros H. injection H as <- <- <- <-. apply take_spec in Et. destruct Et as [-> _].
+    exists ([b] ++ x). split; [reflexivity|]. rewrite all_bytes_app, Hb, Ex. reflexivity. }
+  destruct (b mod 32 <? 31); [discriminate|].
+  destruct (b / 32 =? 7); [discriminate|].
+  destruct ((2 <=? b / 32) && (b / 32 <=? 5)); discriminate.
+Qed.
+
+Lemma dec_seq_bytes d n : bytes_checked d -> bytes_checked (dec_seq d n).
+Proof.
+  intros Hd. induction n as [|n IH]; intros bs xs r H; cbn [dec_seq] in H.
+  - injection H as <- <-. exists []. split; reflexivity.
+  - destruct (d bs) as [[x r0]|e] eqn:E; [|discriminate].
+    destruct (dec_seq d n r0) as [[xs' r1]|e] eqn:E1; [|discriminate].
+    injection H as <- <-.
+    destruct (Hd _ _ _ E) as (c1 & -> & H1). destruct (IH _ _ _ E1) as (c2 & -> & H2).
+    exists (c1 ++ c2). split; [rewrite app_assoc; reflexivity|].
+    rewrite all_bytes_app, H1, H2. reflexivity.
+Qed.
+
+Lemma dec_pairs_bytes d n : bytes_checked d -> bytes_checked (dec_pairs d n).
+Proof.
+  intros Hd. induction n as [|n IH]; intros bs ps r H; cbn [dec_pairs] in H.
+  - injection H as <- <-. exists []. split; reflexivity.
+  - destruct (d bs) as [[k r0]|e] eqn:E; [|discriminate].
+    destruct (negb (scalar_key k)); [discriminate|].
+    destruct (d r0) as [[v r1]|e] eqn:E0; [|discriminate].
+    destruct (dec_pairs d n r1) as [[ps' r2]|e] eqn:E1; [|discriminate].
+    injection H as <- <-.
+    destruct (Hd _ _ _ E) as (c1 & -> & H1). destruct (Hd _ _ _ E0) as (c2 & -> & H2).
+    destruct (IH _ _ _ E1) as (c3 & -> & H3).
+    exists (c1 ++ c2 ++ c3). split; [rewrite <- !app_assoc; reflexivity|].
+    rewrite !all_bytes_app, H1, H2, H3. reflexivity.
+Qed.
+
+Theorem dec_bytes L : forall fuel depth, bytes_checked (dec L fuel depth).
+Proof.
+  induction fuel as [|f IH]; intros depth bs x r H; [discriminate|].
+  destruct (read_head bs) as [[[[mt ai] n] r0]|e] eqn:Hr;
+    [|rewrite (dec_S_err _ _ _ _ _ Hr) in H; discriminate].
+  pose proof (read_head_spec _ _ _ _ _ Hr) as (_ & Hmt & _).
+  destruct (read_head_bytes _ _ _ _ _ Hr) as (hc & Hbs & Hhc).
+  assert (Hgen : forall c, r0 = c ++ r -> all_bytes c = true ->
+                 exists c', bs = c' ++ r /\ all_bytes c' = true).
+  { intros c -> Hc. exists (hc ++ c). split; [rewrite Hbs, app_assoc; reflexivity|].
+    rewrite all_bytes_app, Hhc, Hc. reflexivity. }
+  destruct (mt_cases mt Hmt) as [-> |[-> |[-> |[-> |[-> |[-> |[-> | ->]]]]]]].
+  - rewrite (dec_S_uint _ _ _ _ _ _ _ Hr) in H. injection H as <- <-. apply (Hgen []); reflexivity.
+  - rewrite (dec_S_nint _ _ _ _ _ _ _ Hr) in H. injection H as <- <-. apply (Hgen []); reflexivity.
+  - rewrite (dec_S_bstr _ _ _ _ _ _ _ Hr) in H.
+    destruct (take_n n r0) as [[a r1]|] eqn:Et; [|discriminate].
+    destruct (all_bytes a) eqn:Ea; [|discriminate]. injection H as <- <-.
+    apply take_n_spec in Et. destruct Et as [Et _]. apply (Hgen a Et Ea).
+  - rewrite (dec_S_tstr _ _ _ _ _ _ _ Hr) in H.
+    destruct (take_n n r0) as [[a r1]|] eqn:Et; [|discriminate].
+    destruct (all_bytes a) eqn:Ea; [|discriminate]. destruct (utf8_valid a); [|discriminate].
+    injection H as <- <-.
+    apply take_n_spec in Et. destruct Et as [Et _]. apply (Hgen a Et Ea).
+  - rewrite (dec_S_arr _ _ _ _ _ _ _ Hr) in H.
+    destruct (max_arr L <? n); [discriminate|]. destruct depth as [|d']; [discriminate|].
+    destruct (dec_seq (dec L f d') (N.to_nat n) r0) as [[xs r1]|e] eqn:Es; [|discriminate].
+    injection H as <- <-.
+    destruct (dec_seq_bytes _ _ (IH d') _ _ _ Es) as (c & Hc1 & Hc2). apply (Hgen c Hc1 Hc2).
+  - rewrite (dec_S_map _ _ _ _ _ _ _ Hr) in H.
+    destruct (max_map L <? n); [discriminate|]. destruct depth as [|d']; [discriminate|].
+    destruct (dec_pairs (dec L f d') (N.to_nat n) r0) as [[ps r1]|e] eqn:Es; [|discriminate].
+    destruct (has_dup _); [discriminate|].
+    injection H as <- <-.
+    destruct (dec_pairs_bytes _ _ (IH d') _ _ _ Es) as (c & Hc1 & Hc2). apply (Hgen c Hc1 Hc2).
+  - rewrite (dec_S_tag _ _ _ _ _ _ _ Hr) in H.
+    destruct (negb (tag_allowed n)); [discriminate|].
+    destruct (dec L f depth r0) as [[y r1]|e] eqn:Ed; [|discriminate].
+    injection H as <- <-.
+    destruct (IH _ _ _ _ Ed) as (c & Hc1 & Hc2). apply (Hgen c Hc1 Hc2).
+  - rewrite (dec_S_simple _ _ _ _ _ _ _ Hr) in H.
+    destruct (ai <? 24); [injection H as <- <-; apply (Hgen []); reflexivity|].
+    destruct (ai =? 24); [|discriminate].
+    destruct (n <? 32); [discriminate|]. injection H as <- <-. apply (Hgen []); reflexivity.
+Qed.
+
+Theorem decode_all_bytes L bs x : decode L bs = Ok x -> all_bytes bs = true.
+Proof.
+  unfold decode. intros H.
+  destruct (dec L (S (length bs)) (max_depth L) bs) as [[y [|b r]]|e] eqn:E; try discriminate.
+  destruct (dec_bytes L _ _ _ _ _ E) as (c & -> & Hc). rewrite app_nil_r. exact Hc.
+Qed.
+
+(* ------------------------------------------------------------------ *)
+(* instances for the limits serde configures                            *)
+
+Corollary decode_encode_serde x :
+  within serde_limits x = true -> decode serde_limits (encode x) = Ok x.
+Proof. apply decode_encode, lim64_serde. Qed.
+
+Corollary encode_injective_serde x y :
+  wf serde_limits x = true -> wf serde_limits y = true -> encode x = encode y -> x = y.
+Proof. apply encode_injective, lim64_serde. Qed.
